@@ -1303,7 +1303,7 @@ def k_pamb():
 
 
 FILES = {
-    "KCalcLambda": lambda: [k_calc_lambda(f, g, nb) for f in ("nikuradse", "swamee-jain") for g in (False, True)
+    "KFriction": lambda: [k_calc_lambda(f, g, nb) for f in ("nikuradse", "swamee-jain") for g in (False, True)
                             for nb in (False, True)] + [k_der_lambda("nikuradse"), k_der_lambda("swamee-jain")],
     "KPamb": lambda: [k_pamb()],
     "KGasResNp": lambda: [k_gasres_np()], "KGasResNb": k_gasres_nb,
